@@ -409,8 +409,8 @@ fn long_histories(t: Tier) -> BoxedStrategy<Case> {
 
 fn subs() -> Vec<Sub> {
     vec![
-        gen_sub("long_histories", long_histories, |t| t.pick(400, 8_000), check),
-        gen_sub("histories", histories, |t| t.pick(30_000, 600_000), check),
+        gen_sub("long_histories", long_histories, |t| t.pick(2_000, 8_000), check),
+        gen_sub("histories", histories, |t| t.pick(150_000, 600_000), check),
     ]
 }
 
